@@ -3,6 +3,7 @@
 #include <jose/b64.h>
 #include "hooks.h"
 #include "openssl/misc.h"
+#include "hx_io.h"
 
 static json_t *
 strlist(const char **l)
@@ -91,6 +92,32 @@ op_tables(json_t *args)
         case JOSE_HOOK_JWK_KIND_MAKE: nmake++; break;
         default: break;
         }
+    }
+
+    /* behavioural probe of the streaming codecs' staging-buffer sizes: length of the first
+     * block handed downstream when more than a buffer-full is fed in one call */
+    {
+        jose_io_t *p = hx_probe(-1);
+        jose_io_t *e = jose_b64_enc_io(p);
+        uint8_t in[1024];
+        json_t *log;
+        memset(in, 'A', sizeof(in));
+        e->feed(e, in, sizeof(in));
+        log = hx_probe_log(p);
+        json_object_set_new(res, "b64_enc_blk",
+            json_integer((json_string_length(json_array_get(log, 0)) - 2) / 2 / 4 * 3));
+        json_decref(log);
+        jose_io_decref(e);
+        jose_io_decref(p);
+        p = hx_probe(-1);
+        e = jose_b64_dec_io(p);
+        e->feed(e, in, sizeof(in));
+        log = hx_probe_log(p);
+        json_object_set_new(res, "b64_dec_blk",
+            json_integer((json_string_length(json_array_get(log, 0)) - 2) / 2 / 3 * 4));
+        json_decref(log);
+        jose_io_decref(e);
+        jose_io_decref(p);
     }
 
     json_object_set_new(res, "algs", algs);
